@@ -6,13 +6,13 @@ use spdcalc::jsa::{jsa_raw, jsi_singles_raw, FrequencySpace, JointSpectrum};
 use spdcalc::math::Integrator;
 use spdcalc::phasematch::{
   fwhm_to_spectral_width, get_pm_integrand, jsi_normalization, jsi_singles_normalization,
-  phasematch_fiber_coupling, pump_spectral_amplitude,
+  phasematch_fiber_coupling, phasematch_singles_fiber_coupling, pump_spectral_amplitude,
 };
 use spdcalc::utils::{from_celsius_to_kelvin, vacuum_wavelength_to_frequency, Steps2D};
 use spdcalc::beam::{Beam, BeamWaist, IdlerBeam, PumpBeam, SignalBeam};
 use spdcalc::{
   Apodization, Complex, CrystalSetup, CrystalType, Frequency, JsiNorm,
-  JsiSinglesNorm, MetersPerMilliVolt, PMType, PerMeter4, PeriodicPoling, PolarizationType, Sign,
+  JsiSinglesNorm, MetersPerMilliVolt, PMType, PerMeter3, PerMeter4, PeriodicPoling, PolarizationType, Sign,
   SPDC,
 };
 
@@ -919,6 +919,84 @@ fn spectra(js: &JointSpectrum, spdc: &SPDC, ws: f64, wi: f64, integ: Integrator)
   })
 }
 
+
+/// HOM visibilities and rate curves do not depend on power/deff of either source: single source, two identical
+/// sources, and a source interfered with a rescaled copy of itself (both orders) through the free functions.
+fn two_source_hom(ctx: &mut Ctx, spdc: &SPDC, scaled: &SPDC, a: f64, b: f64, range: FrequencySpace, integ: Integrator, det: &str) {
+  use spdcalc::dim::ucum::S as SEC;
+  use spdcalc::utils::Steps;
+  use spdcalc::{hom_two_source_rate_series, hom_two_source_time_delays, hom_two_source_visibilities};
+  let c = (a * b * b).sqrt();
+  let (s1, s2) = (spdc.clone(), scaled.clone());
+  let tau = 10f64.powf(ctx.rng.range(-13.5, -11.5));
+  let r = guard(move || {
+    let js1 = s1.joint_spectrum(integ);
+    let js2 = s2.joint_spectrum(integ);
+    let amax = js1.jsa_range(range).iter().map(|z| z.norm()).fold(0.0, f64::max);
+    let delays = Steps(-tau * SEC, tau * SEC, 3);
+    let reference = hom_two_source_rate_series(&js1, &js1, range, range, delays);
+    let mixed12 = hom_two_source_rate_series(&js1, &js2, range, range, delays);
+    let mixed21 = hom_two_source_rate_series(&js2, &js1, range, range, delays);
+    let same22 = hom_two_source_rate_series(&js2, &js2, range, range, delays);
+    // single source rate curve
+    let single1 = s1.hom_rate_series(delays, range, integ);
+    let single2 = s2.hom_rate_series(delays, range, integ);
+    // visibilities of the mixed pairs against identical sources at the SAME delays
+    let td = hom_two_source_time_delays(&s1, &s2);
+    let at = |t| hom_two_source_rate_series(&js1, &js1, range, range, Steps(t, t, 1));
+    let expect = [(0.5 - at(td.ss).ss[0]) / 0.5, (0.5 - at(td.ii).ii[0]) / 0.5, (0.5 - at(td.si).si[0]) / 0.5];
+    let v12 = hom_two_source_visibilities(&s1, &s2, range, range, integ);
+    let v21 = hom_two_source_visibilities(&s2, &s1, range, range, integ);
+    let td21 = hom_two_source_time_delays(&s2, &s1);
+    let expect21 = [(0.5 - at(td21.ss).ss[0]) / 0.5, (0.5 - at(td21.ii).ii[0]) / 0.5, (0.5 - at(td21.si).si[0]) / 0.5];
+    // identical sources through the SPDC methods
+    let self1 = s1.hom_two_source_visibilities(range, integ);
+    let self2 = s2.hom_two_source_visibilities(range, integ);
+    (amax, reference, mixed12, mixed21, same22, single1, single2, expect, expect21, v12, v21, self1, self2)
+  });
+  let (amax, reference, mixed12, mixed21, same22, single1, single2, expect, expect21, v12, v21, self1, self2) = match r {
+    Some(x) => x,
+    None => {
+      ctx.s("C07.invariant", false, "invariant/hom-two-source-panic", det);
+      return;
+    }
+  };
+  // |f1|²|f2|² sums: fourth powers of the amplitudes with both scales must stay inside the f64 range
+  if !(amax * c.min(1.0) > 1e-70 && amax * c.max(1.0) < 1e70) {
+    ctx.count("c07/hom-two-source/amplitudes-outside-f64-fourth-power-range");
+    return;
+  }
+  let close = |x: f64, y: f64| (x - y).abs() <= 1e-9 * x.abs().max(y.abs()).max(1.0);
+  let all_fin = |v: &[f64]| v.iter().all(|x| x.is_finite());
+  let flat = |r: &spdcalc::HomTwoSourceResult<Vec<f64>>| -> Vec<f64> { r.ss.iter().chain(r.ii.iter()).chain(r.si.iter()).cloned().collect() };
+  let rf = flat(&reference);
+  if !all_fin(&rf) {
+    ctx.count("c07/hom-two-source/non-finite-reference");
+    return;
+  }
+  for (name, other) in [("mixed-1x2", flat(&mixed12)), ("mixed-2x1", flat(&mixed21)), ("rescaled-2x2", flat(&same22))] {
+    let ok = other.len() == rf.len() && rf.iter().zip(other.iter()).all(|(x, y)| close(*x, *y));
+    ctx.s("C07.invariant", ok, &format!("invariant/hom-two-source-rate/{}", name), &format!("reference={:?} got={:?} {}", rf, other, det));
+  }
+  if all_fin(&single1) {
+    let ok = single1.len() == single2.len() && single1.iter().zip(single2.iter()).all(|(x, y)| close(*x, *y));
+    ctx.s("C07.invariant", ok, "invariant/hom-rate-series", &format!("rate={:?} rate_scaled={:?} {}", single1, single2, det));
+  }
+  let vis = |v: &spdcalc::HomTwoSourceResult<(spdcalc::types::Time, f64)>| [v.ss.1, v.ii.1, v.si.1];
+  for (name, got, want) in [("mixed-1x2", vis(&v12), expect), ("mixed-2x1", vis(&v21), expect21)] {
+    if all_fin(&want) {
+      let ok = got.iter().zip(want.iter()).all(|(x, y)| close(*x, *y));
+      ctx.s("C07.invariant", ok, &format!("invariant/hom-two-source-visibility/{}", name), &format!("identical_sources_at_same_delays={:?} got={:?} {}", want, got, det));
+    }
+  }
+  let (v1, v2) = (vis(&self1), vis(&self2));
+  if all_fin(&v1) {
+    let ok = v1.iter().zip(v2.iter()).all(|(x, y)| close(*x, *y));
+    ctx.s("C07.invariant", ok, "invariant/hom-two-source-visibility/rescaled-2x2", &format!("V={:?} V_scaled={:?} {}", v1, v2, det));
+  }
+  ctx.count("c07/hom-two-source/judged");
+}
+
 fn c07_cases(ctx: &mut Ctx) {
   let opts = GenOpts { plane_wave: false, phase_matched: false };
   let opts_pm = GenOpts { plane_wave: false, phase_matched: true };
@@ -1107,6 +1185,74 @@ fn c07_cases(ctx: &mut Ctx) {
       }
     }
 
+    // ---- one support for both spectra: zero iff envelope AMPLITUDE < threshold (or off the box);
+    //      singles raw = envelope² × singles phase matching above it.  Thresholds 1e-2, 1e-4, 0.25;
+    //      envelope targets in the band thr ≤ α < sqrt(thr), around α = thr (±ulp-ish, ±1 %) and around sqrt(thr)
+    for thr_k in [1e-2, 1e-4, 0.25] {
+      let mut st = spdc.clone();
+      st.pump_spectrum_threshold = thr_k;
+      let s1 = st.clone();
+      let jst = match guard(move || s1.joint_spectrum(integ)) {
+        Some(j) => j,
+        None => continue,
+      };
+      let rt = thr_k.sqrt();
+      let targets = [
+        thr_k * (1.0 + 4e-16), thr_k * (1.0 - 4e-16), thr_k * (1.0 + 1e-9), thr_k * (1.0 - 1e-9), thr_k * 1.01, thr_k * 0.99,
+        thr_k.powf(0.9), thr_k.powf(0.75), thr_k.powf(0.6), thr_k.powf(0.51),
+        rt * 0.99, rt * 1.01, 0.5 * (1.0 + rt), 0.3 * thr_k,
+      ];
+      for alpha_t in targets {
+        if !(alpha_t > 0.0 && alpha_t < 1.0) {
+          continue;
+        }
+        let d = (-alpha_t.ln()).sqrt() * sigma * if ctx.rng.coin() { 1.0 } else { -1.0 };
+        let split = ctx.rng.unit();
+        let (ws, wi) = (ws0 + split * d, wi0 + (1.0 - split) * d);
+        let off_box = ws <= 0.0 || wi <= 0.0 || ws > wp0 || wi > wp0 || (ws - wi).abs() > 0.75 * wp0;
+        let alpha = pump_spectral_amplitude(w(ws) + w(wi), &st);
+        let det = format!("thr={:e} alpha={:.17e} ws={:.17e} wi={:.17e} divs={} {}", thr_k, alpha, ws, wi, divs, desc);
+        let s1 = st.clone();
+        let fs = guard(move || *(phasematch_singles_fiber_coupling(w(ws), w(wi), &s1, integ) / PerMeter3::new(1.0)));
+        let sp = spectra(&jst, &st, ws, wi, integ);
+        let (fs, sp) = match (fs, sp) {
+          (Some(a), Some(b)) => (a, b),
+          _ => {
+            ctx.s("C07.support", false, "support/panic", &det);
+            continue;
+          }
+        };
+        let band = if off_box { "off-box" } else if alpha < thr_k { "below" } else if alpha < rt { "band" } else { "above-sqrt" };
+        ctx.count(&format!("c07/support/thr={:e}/{}", thr_k, band));
+        let coinc_zero = sp.raw.re == 0.0 && sp.raw.im == 0.0 && sp.jsa.re == 0.0 && sp.jsa.im == 0.0 && sp.jsi == 0.0;
+        let singles_zero = sp.sraw == 0.0 && sp.jsis == 0.0;
+        if off_box || alpha < thr_k {
+          ctx.s("C07.zero", coinc_zero && singles_zero, &format!("zero/{}", if off_box { "off-box-near-centre" } else { "below-threshold" }),
+            &format!("raw=({:e},{:e}) sraw={:e} jsi={:e} jsis={:e} {}", sp.raw.re, sp.raw.im, sp.sraw, sp.jsi, sp.jsis, det));
+        } else {
+          // inside the support: singles raw = envelope² × singles phase matching (bit-for-bit up to the order of the products)
+          let expect = alpha * alpha * fs;
+          let ok = !expect.is_finite() || sp.sraw == expect || rel_err(sp.sraw, expect) <= 1e-12;
+          ctx.s("C07.singles_factor", ok, &format!("singles-factor/{}", band),
+            &format!("sraw={:e} expect={:e} fs={:e} {}", sp.sraw, expect, fs, det));
+          // one support: a spectrum may vanish inside only if its own phase-matching factor is the literal zero
+          let s1 = st.clone();
+          let pm = guard(move || *(phasematch_fiber_coupling(w(ws), w(wi), &s1, integ) / PerMeter4::new(1.0)));
+          let pm_zero = matches!(pm, Some(p) if { let q = alpha * p; q.re == 0.0 && q.im == 0.0 });
+          let fs_zero = alpha * alpha * fs == 0.0;
+          let ok = (!(sp.raw.re == 0.0 && sp.raw.im == 0.0) || pm_zero) && (sp.sraw != 0.0 || fs_zero);
+          ctx.s("C07.support", ok, &format!("support/shared/{}", band),
+            &format!("raw=({:e},{:e}) sraw={:e} fs={:e} {}", sp.raw.re, sp.raw.im, sp.sraw, fs, det));
+        }
+        // correspondence of the singles support logic (the 2-D phase-matching value is an input)
+        ctx.k(
+          "jsi_singles_raw",
+          &fls(&[ws, wi, wp0, bw.value_unsafe, thr_k, fs]),
+          &fl(sp.sraw),
+        );
+      }
+    }
+
     // ---- linearity in power and deff² over 6 decades; invariance of ratios
     let a = 10f64.powf(ctx.rng.range(-3.0, 3.0));
     let b = 10f64.powf(ctx.rng.range(-3.0, 3.0));
@@ -1184,6 +1330,7 @@ fn c07_cases(ctx: &mut Ctx) {
         let amax = s1.joint_spectrum(sinteg).jsa_range(range).iter().map(|z| z.norm()).fold(0.0, f64::max);
         (e1, e2, k1, k2, h1, h2, amax)
       });
+      two_source_hom(ctx, &spdc, &scaled, a, b, range, sinteg, &det);
       match r {
         None => ctx.s("C07.linear", false, "linear/rates-panic", &det),
         Some((e1, e2, k1, k2, h1, h2, amax)) => {
@@ -1382,9 +1529,14 @@ fn c05_cases(ctx: &mut Ctx) {
       ctx.count("c05/not-phase-matched-by-optimum");
       continue;
     }
-    let integ = match ctx.rng.below(4) {
+    // the statement does not single out an integrator: default Simpson-50, finer Simpson rules
+    // (≥ 130 requested divisions take math::simpson's parallel branch) and Gauss–Legendre
+    let integ = match ctx.rng.below(7) {
       0 => Integrator::Simpson { divs: 100 },
-      1 => Integrator::GaussLegendre { degree: 40 },
+      1 => Integrator::Simpson { divs: 200 },
+      2 => Integrator::Simpson { divs: 400 },
+      3 => Integrator::GaussLegendre { degree: 40 },
+      4 => Integrator::Simpson { divs: 130 },
       _ => Integrator::default(),
     };
     let iname = match integ {
